@@ -167,6 +167,64 @@ def class_context(klass):
     return methods, props
 
 
+_CONSTS = None
+
+
+def is_const_expr(e):
+    if isinstance(e, ast.Constant):
+        return True
+    if isinstance(e, ast.Attribute) and isinstance(e.value, ast.Name) and e.value.id in ENUM_CLASSES:
+        return True
+    if isinstance(e, ast.UnaryOp) and isinstance(e.op, ast.USub) and isinstance(e.operand, ast.Constant):
+        return True
+    if isinstance(e, (ast.Tuple, ast.List, ast.Set)):
+        return all(is_const_expr(x) for x in e.elts)
+    if isinstance(e, ast.Dict):
+        return all(k is not None and isinstance(k, ast.Constant) for k in e.keys) and all(is_const_expr(x) for x in e.values)
+    return False
+
+
+def module_constant(name):
+    """the literal collection of constants bound to a module-level name of the package (`_READ_OPS = ("Read", ...)`),
+    as an ast node, if the name has exactly one such definition in the package and is never re-bound"""
+    global _CONSTS
+    if REPO is None:
+        return None
+    if _CONSTS is None or _CONSTS[0] is not REPO:
+        defs, bad = {}, set()
+        for rel, m in REPO.modules.items():
+            for n in m.tree.body:
+                tg = []
+                if isinstance(n, ast.Assign):
+                    tg = [t.id for t in n.targets if isinstance(t, ast.Name)]
+                    v = n.value
+                elif isinstance(n, (ast.AugAssign, ast.AnnAssign)) and isinstance(n.target, ast.Name):
+                    tg, v = [n.target.id], None
+                for t in tg:
+                    if isinstance(v, ast.Call) and isinstance(v.func, ast.Name) and v.func.id in ("frozenset", "set", "tuple") \
+                            and len(v.args) == 1:
+                        v = v.args[0]
+                    ok = isinstance(v, (ast.Tuple, ast.List, ast.Set, ast.Dict)) and is_const_expr(v)
+                    if t in defs or not ok:
+                        bad.add(t)
+                    defs[t] = v
+            for n in ast.walk(m.tree):
+                if isinstance(n, ast.Global):
+                    bad.update(n.names)
+        _CONSTS = (REPO, {k: v for k, v in defs.items() if k not in bad})
+    return _CONSTS[1].get(name)
+
+
+def package_signature(name):
+    """positional parameter names of the package's module-level function `name` (unique definition), or None"""
+    if REPO is None:
+        return None
+    found = [n for rel, m in REPO.modules.items() for n in m.tree.body if isinstance(n, ast.FunctionDef) and n.name == name]
+    if len(found) != 1:
+        return None
+    return [a.arg for a in found[0].args.args]
+
+
 _PKG = None
 
 
@@ -212,6 +270,11 @@ class Interp:
         # constructs outside the modelled fragment (calls of callables that cannot be resolved, containers
         # that escape into them): verdicts from a run that met one are never definite refutations
         self.fuzzy = []
+        self.param_src = {}
+        self.unrolling = 0
+        self.exact_done = set()
+        self.unroll_depth = 2
+        self.const_locals = {}    # loop variables currently bound to a literal collection (unrolled loops)
         self.part_cap = 96
         self.fnlocals = {n.id for n in ast.walk(fn) if isinstance(n, ast.Name) and isinstance(n.ctx, ast.Store)} | \
             {n.name for n in ast.walk(fn) if isinstance(n, ast.FunctionDef) and n is not fn} | \
@@ -498,6 +561,9 @@ class Interp:
 
     def ev_subscript(self, node, st):
         base = node.value
+        if isinstance(base, ast.Name) and base.id not in self.fnlocals and isinstance(module_constant(base.id), ast.Dict):
+            node = ast.copy_location(ast.Subscript(module_constant(base.id), node.slice, node.ctx), node)
+            base = node.value
         if isinstance(base, ast.Dict) and all(isinstance(k, ast.Constant) for k in base.keys):
             idx = self.ev(node.slice, st)
             vals = [self.ev(v, st) for v in base.values]
@@ -614,6 +680,17 @@ class Interp:
                 return self.summarised_call(tgt, node, args, st)
             args = [self.ev(a, st) for a in node.args]
             kwargs = {k.arg: self.ev(k.value, st) for k in node.keywords if k.arg}
+            if kwargs and tgt in self.record_calls:
+                # keyword arguments are put into the positions the callee's signature gives them
+                pos = package_signature(tgt)
+                if pos:
+                    full = list(args)
+                    for p_ in pos[len(args):]:
+                        if p_ in kwargs:
+                            full.append(kwargs[p_])
+                        else:
+                            break
+                    args = full
             if self.record and tgt in self.record_calls:
                 (self.early_calls if self.early else self.calls).append(CallRec(node, tgt, self.cidx.get((node.lineno, node.col_offset), -1),
                                           args, kwargs, st.copy()))
@@ -774,6 +851,8 @@ class Interp:
         for i, p in enumerate(params):
             src = call.args[i] if (i < len(call.args) and i < npos) else kw.get(p.arg, defaults.get(p.arg))
             ren[p.arg] = pre + p.arg
+            if src is not None:
+                self.param_src[pre + p.arg] = src      # what an inlined parameter stands for (for reports and rules)
             for st in states:
                 v = self.ev(src, st) if src is not None else None
                 if isinstance(v, Val) and v.kind == "container":
@@ -908,6 +987,26 @@ class Interp:
                 rest = nxt
             return outs
         if isinstance(t, ast.Compare) and len(t.ops) == 1:
+            op = type(t.ops[0])
+            if (op is ast.In and truth) or (op is ast.NotIn and not truth):
+                # x in (c1, .., ck) for a small literal collection is the chain x == c1 or .. or x == ck: one state
+                # per member, so that facts that hang on the exact member (call summaries) become available
+                coll = t.comparators[0]
+                if isinstance(coll, ast.Name) and coll.id not in self.fnlocals and module_constant(coll.id) is not None:
+                    coll = module_constant(coll.id)
+                elif isinstance(coll, ast.Name) and coll.id in self.const_locals:
+                    coll = self.const_locals[coll.id]
+                if isinstance(coll, (ast.Set, ast.List, ast.Tuple)) and 2 <= len(coll.elts) <= 6 and st.cond \
+                        and all(isinstance(e, ast.Constant) or (isinstance(e, ast.Attribute) and isinstance(e.value, ast.Name)
+                                                                and e.value.id in ENUM_CLASSES) for e in coll.elts):
+                    outs = []
+                    for e in coll.elts:
+                        eq = ast.copy_location(ast.Compare(t.left, [ast.Eq()], [e]), t)
+                        s2 = st.copy()
+                        self._compare(eq, s2, True)
+                        if not s2.bottom:
+                            outs.append(s2)
+                    return outs
             self._compare(t, st, truth)
             return [st]
         if isinstance(t, ast.Compare) and len(t.ops) >= 2:
@@ -981,6 +1080,10 @@ class Interp:
                     if op is ast.NotIn:
                         st.bottom = True
                 return
+            if isinstance(coll, ast.Name) and coll.id not in self.fnlocals and module_constant(coll.id) is not None:
+                coll = module_constant(coll.id)
+            elif isinstance(coll, ast.Name) and coll.id in self.const_locals:
+                coll = self.const_locals[coll.id]
             if isinstance(coll, (ast.Set, ast.List, ast.Tuple)) and (sa or isinstance(a, Tok)):
                 toks = []
                 for e in coll.elts:
@@ -1147,6 +1250,9 @@ class Interp:
             if isinstance(s, ast.If):
                 return self.do_if(s, states)
             if isinstance(s, ast.For):
+                u = self.unroll_for(s, states)
+                if u is not None:
+                    return u
                 d = self.desugar_for(s)
                 if d is not None:
                     out, brk, cont = self.block(d[:-1], states)
@@ -1337,6 +1443,38 @@ class Interp:
             return [st], [], []
         raise Unsupported(f"statement {type(s).__name__} at line {s.lineno}")
 
+    def unroll_for(self, s, states):
+        """a loop over a literal collection of constants (written in place or bound to a module-level name) is
+        unrolled: the body once per element, `continue` goes on with the next element, `break` leaves"""
+        it = s.iter
+        if isinstance(it, ast.Name) and it.id not in self.fnlocals:
+            it = module_constant(it.id)
+        if not (isinstance(it, (ast.Tuple, ast.List)) and is_const_expr(it) and 1 <= len(it.elts) <= 8) or s.orelse:
+            return None
+        cur, brk_all = list(states), []
+        for e in it.elts:
+            if not cur:
+                break
+            tgts = s.target.elts if isinstance(s.target, (ast.Tuple, ast.List)) else [s.target]
+            vals = e.elts if isinstance(s.target, (ast.Tuple, ast.List)) and isinstance(e, (ast.Tuple, ast.List)) else [e]
+            if len(tgts) != len(vals) or not all(isinstance(t, ast.Name) for t in tgts):
+                return None
+            pre = []
+            saved = dict(self.const_locals)
+            for t, v in zip(tgts, vals):
+                if isinstance(v, (ast.Tuple, ast.List, ast.Set)):
+                    self.const_locals[t.id] = v          # a collection-valued loop variable (used in `x in names`)
+                else:
+                    self.const_locals.pop(t.id, None)
+                    pre.append(ast.copy_location(ast.Assign([ast.Name(t.id, ast.Store())], v), s))
+            for p_ in pre:
+                ast.fix_missing_locations(p_)
+            o, b, c = self.block(pre + list(s.body), cur)
+            self.const_locals = saved
+            brk_all += b
+            cur = self.normalize(o + c)
+        return self.normalize(cur + brk_all), [], []
+
     def desugar_for(self, s):
         """`for t in range(a, b[, +-1])` as the while loop it is: the bounds are evaluated once, the hidden counter
         starts at a, the body runs while it is below (above) b, t takes its value and the counter moves on before
@@ -1398,7 +1536,29 @@ class Interp:
         entry = self.normalize([x.copy() for x in states])
         # restart from the invariant found the last time this loop was solved
         # (sound: we join with the new entry and keep iterating upwards)
-        memo = self.loop_memo.get(id(s))
+        memo = self.loop_memo.get(id(s)) if not self.unrolling else None
+        # exact phase: the first two iterations of an outer loop are followed one at a time, without joining them with
+        # the loop entry (loops nested inside are solved from scratch for that iteration).  Their records are "early"
+        # records; a state of iteration 2 (second adjoint pass, second block, ...) describes just that iteration, so a
+        # definite contradiction found there is not hidden by the invariant of all iterations
+        if rec and self.record_early and id(s) not in self.exact_done and self.unrolling < self.unroll_depth \
+                and not self.exact_minmax:
+            self.exact_done.add(id(s))
+            cur = [x.copy() for x in entry]
+            self.unrolling += 1
+            try:
+                for k in range(2):
+                    self.record, self.early = True, True
+                    body_in = self.loop_enter(s, cur)
+                    if not body_in:
+                        break
+                    o, _b, cont = self.block(s.body, body_in)
+                    cur = self.normalize(o + cont)
+                    if not cur:
+                        break
+            finally:
+                self.unrolling -= 1
+                self.record, self.early = rec, was_early
         head = self.normalize([x.copy() for x in entry] + ([x.copy() for x in memo] if memo else []))
         try:
             for it in range(60):
@@ -1427,7 +1587,8 @@ class Interp:
         finally:
             self.record = rec
             self.early = was_early
-        self.loop_memo[id(s)] = [x.copy() for x in head]
+        if not self.unrolling:
+            self.loop_memo[id(s)] = [x.copy() for x in head]
         # final pass with recording
         body_in = self.loop_enter(s, head)
         brk = []
